@@ -247,7 +247,8 @@ func (f *memFile) Type() os.FileMode {
 }
 
 func (f *memFile) Info() (os.FileInfo, error) {
-	return f.Stat()
+	// Info is called on directory entries, it doesn't require the file to be open.
+	return f, nil
 }
 
 func (f *memFile) Slice(start int64, end int64) ([]byte, error) {
